@@ -398,6 +398,11 @@ def check_ctor(f, rep, b, st, ft, tb, E):
             adds = [c for c in cb.calls() if c.decl.endswith("checked_add")]
             if adds and any("data_section_size" in t for t in cterms):
                 ok = True
+        if not ok:
+            # spelled without closures (`a.checked_mul(16)?.checked_add(b)?` in a helper spliced into parse): the length handed to
+            # take() is built from data_section_size through a checked addition
+            direct = [c for c in hp.calls() if c.decl.endswith("checked_add")] + [c for cb in f.closures_of(hp) for c in cb.calls() if c.decl.endswith("checked_add")]
+            ok = "data_section_size" in txt and "checked_add(" in txt and bool(direct)
         rep.check(ok, "O4", "parse|adds-store-size", "the block size adds data_section_size", "closures of Header::parse call %s" % names[:4], hp.span)
     else:
         rep.finding("O4", "%s|unknown-constructor" % key, "%s constructs a Header outside the reviewed constructors (from_entries, new_empty, parse_header)" % b.path, loc)
